@@ -152,8 +152,13 @@ fn chk_numstat(c: &mut Ctx, suffixes: &[String], lines: &[String]) {
         wa += a; wd += d;
     }
     match guarded(|| region_numstat_sum(&stdout, IgnoreMatcher(suffixes.to_vec()), 0, 0)) {
-        Ok((a, d)) => if (a as u64, d as u64) != (wa, wd) { c.fail("region_numstat_sum", "ensures", input, format!("added={} deleted={}", a, d), format!("added={} deleted={} (numstat records minus ignored files)", wa, wd)); },
-        Err(p) => c.fail("region_numstat_sum", "safety", input, p, "no panic".into()),
+        Ok((a, d)) => if (a as u64, d as u64) != (wa, wd) { c.fail("region_numstat_sum", "ensures", input.clone(), format!("added={} deleted={}", a, d), format!("added={} deleted={} (numstat records minus ignored files)", wa, wd)); },
+        Err(p) => c.fail("region_numstat_sum", "safety", input.clone(), p, "no panic".into()),
+    }
+    // the commit-range variant (range_authorship.rs) must count the same records
+    match guarded(|| region_numstat_sum_range(&stdout, IgnoreMatcher(suffixes.to_vec()), 0, 0)) {
+        Ok((a, d)) => if (a as u64, d as u64) != (wa, wd) { c.fail("region_numstat_sum_range", "ensures", input, format!("added={} deleted={}", a, d), format!("added={} deleted={} (numstat records minus ignored files)", wa, wd)); },
+        Err(p) => c.fail("region_numstat_sum_range", "safety", input, p, "no panic".into()),
     }
 }
 fn gen_numstat(g: &mut Rng, c: &mut Ctx) {
